@@ -41,6 +41,7 @@ def records_for(inst):
 
     recs = []
     ke = ic.kernel_ke(inst["K"])
+    wu = 4.0 ** int(inst.get("noise_shift", 0))  # noise units: sigma times 2^k divides D and F by 4^k exactly
     cs = ic.col_scales(inst)
     n = len(inst["u"])
     try:
@@ -79,8 +80,8 @@ def records_for(inst):
                 except Exception:  # singular systems etc. are not C04's business
                     pass
             Bm = _to_int(np.asarray(inv.operated_mapping_matrix) * cs[None, :], 2.0 ** (-ke), "B")
-            D = _to_int(np.asarray(inv.data_vector) * cs, 4.0 * 2.0 ** (-ke), "D")
-            F = _to_int(np.asarray(inv.curvature_matrix) * cs[:, None] * cs[None, :], 4.0 * 4.0 ** (-ke), "F")
+            D = _to_int(np.asarray(inv.data_vector) * cs, wu * 4.0 * 2.0 ** (-ke), "D")
+            F = _to_int(np.asarray(inv.curvature_matrix) * cs[:, None] * cs[None, :], wu * 4.0 * 4.0 ** (-ke), "F")
             if Bm is None or D is None or F is None:
                 r["raised"] = True
                 r["err"] = "offlattice"
@@ -109,8 +110,8 @@ def records_for(inst):
             inv = aa.Inversion(dataset=ds2, linear_obj_list=objs2, settings=st, preloads=aa.Preloads(w_tilde=ds.w_tilde, use_w_tilde=True))
             r["cls"] = type(inv).__name__
             Bm = _to_int(np.asarray(inv.operated_mapping_matrix) * cs[None, :], 2.0 ** (-ke), "B")
-            D = _to_int(np.asarray(inv.data_vector) * cs, 4.0 * 2.0 ** (-ke), "D")
-            F = _to_int(np.asarray(inv.curvature_matrix) * cs[:, None] * cs[None, :], 4.0 * 4.0 ** (-ke), "F")
+            D = _to_int(np.asarray(inv.data_vector) * cs, wu * 4.0 * 2.0 ** (-ke), "D")
+            F = _to_int(np.asarray(inv.curvature_matrix) * cs[:, None] * cs[None, :], wu * 4.0 * 4.0 ** (-ke), "F")
             if Bm is None or D is None or F is None:
                 r["raised"], r["err"] = True, "offlattice"
             else:
@@ -227,6 +228,10 @@ def run(ctx):
     n_large = 40 if quick else 1500
     small = [ic.random_instance(rng, H=7, W=7, interior=3) for _ in range(n_small)]
     # object lists with three and four mappers (every pair of mappers has an off-diagonal block, adjacent in the list or not)
+    # the same instances in other noise units (sigma times 2^k, k up to +-20): the normal equations are homogeneous in the noise,
+    # so nothing but an exact power of four changes - absolute thresholds on weights or overlaps are not scale free
+    for k_, inst_ in enumerate(small):
+        inst_["noise_shift"] = int([0, 0, 20, -10, 0, 10][k_ % 6])
     n_multi = 24 if quick else 600
     small += [ic.random_instance(rng, H=7, W=7, interior=3, layouts=("mmm", "mfmm", "mmfm", "mmmm", "fmmm")) for _ in range(n_multi)]
     large = [ic.random_instance(rng, H=9, W=9, interior=5, max_sub=3,
